@@ -2,7 +2,9 @@ package main
 
 import (
 	"fmt"
+	"go/constant"
 	"go/token"
+	"go/types"
 	"strings"
 
 	"golang.org/x/tools/go/ssa"
@@ -334,6 +336,16 @@ func rulePageCapacity(c *Ctx, id string) {
 		gr := c.fn("bbolt.(*DB).grow")
 		bad := growTable(c, gr)
 		c.check(id+":(*DB).grow:table", gr, gr.Pos(), "when the requested size exceeds the file size and grow succeeds (sync enabled), the file was truncated to at least the requested size", bad == "", bad)
+
+		// (9) the mapping covers what it is asked to cover
+		ms := c.fn("bbolt.(*DB).mmapSize")
+		bad = mmapSizeTable(c, ms)
+		c.check(id+":(*DB).mmapSize:table", ms, ms.Pos(), "mmapSize(n) is at least n, a multiple of the page size and at most MaxMapSize, or an error when n exceeds MaxMapSize", bad == "", bad)
+		dm := c.fn("bbolt.(*DB).mmap")
+		bad = dbMmapTable(c, dm)
+		c.check(id+":(*DB).mmap:table", dm, dm.Pos(), "db.mmap(minsz) maps mmapSize(max(fileSize, minsz)) bytes", bad == "", bad)
+		bad = allocateRemapTable(c, da)
+		c.check(id+":(*DB).allocate:mapping-covers-run", da, da.Pos(), "a run taken at the high-water mark that ends beyond the current mapping triggers db.mmap with a size covering the whole run", bad == "", bad)
 	})
 }
 
@@ -642,4 +654,198 @@ func ruleInlineNoNested(c *Ctx, id string) {
 		}
 		c.check(id+":(*Bucket).inlineable:table", fn, fn.Pos(), fmt.Sprintf("a root leaf holding a nested-bucket element is never inlineable, whatever the per-transaction bucket cache holds; small plain leaves are (%d scenarios)", len(scs)), bad == "", bad)
 	})
+}
+
+func mmapSizeTable(c *Ctx, ms *ssa.Function) string {
+	maxMap := int64(0)
+	if obj, ok := c.P.Pkg(commonPath).Types.Scope().Lookup("MaxMapSize").(*types.Const); ok {
+		maxMap, _ = constant.Int64Val(constant.ToInt(obj.Val()))
+	}
+	if maxMap == 0 {
+		return "common.MaxMapSize not found"
+	}
+	sizes := []int64{0, 1, 32768, 32769, 1 << 20, 1<<20 + 1, 1 << 30, 1<<30 + 1, maxMap - 4096, maxMap}
+	if maxMap > 1<<33 {
+		sizes = append(sizes, 5<<30+12345, maxMap+1)
+	}
+	for _, P := range []int64{4096, 16384} {
+		for _, n := range sizes {
+			ev := &Evaluator{
+				Load: func(u *ssa.UnOp) (V, bool) {
+					if strings.HasSuffix(pathOf(u).Names(), "pageSize") {
+						return iV(P), true
+					}
+					return unkV, false
+				},
+				Param: func(p *ssa.Parameter) (V, bool) {
+					if p.Name() == "size" {
+						return iV(n), true
+					}
+					return symV(p.Name()), true
+				},
+				Call: func(call *ssa.Call, args []V) (V, bool) {
+					if calleeOf(call).Name() == "errors.New" {
+						return symV("error"), true
+					}
+					return unkV, false
+				},
+			}
+			o := ev.Exec(ms, nil)
+			if o.Kind != "return" || len(o.Rets) != 2 {
+				return fmt.Sprintf("mmapSize(%d): %s", n, o)
+			}
+			isErr := o.Rets[1].K != vNil
+			if n > maxMap {
+				if !isErr {
+					return fmt.Sprintf("mmapSize(%d) succeeds beyond MaxMapSize %d", n, maxMap)
+				}
+				continue
+			}
+			got, ok := o.Rets[0].Int()
+			if isErr || !ok {
+				return fmt.Sprintf("mmapSize(%d) = (%s, %s)", n, o.Rets[0], o.Rets[1])
+			}
+			if got < n || got > maxMap || (got%P != 0 && got != maxMap) {
+				return fmt.Sprintf("mmapSize(%d) with page size %d = %d (want >= request, <= %d, page-aligned)", n, P, got, maxMap)
+			}
+		}
+	}
+	return ""
+}
+
+// successHooks: every call without a more specific answer succeeds (nil error) or yields an opaque value.
+func successCall(call *ssa.Call) (V, bool) {
+	res := call.Call.Signature().Results()
+	if res.Len() == 1 && isErrorType(res.At(0).Type()) {
+		return nilV, true
+	}
+	if res.Len() == 1 {
+		return symV("r:" + calleeOf(call).Name()), true
+	}
+	return unkV, false
+}
+
+func dbMmapTable(c *Ctx, dm *ssa.Function) string {
+	type row struct{ file, minsz, mapped int64 }
+	for _, r := range []row{{16384, 0, 32768}, {16384, 65536, 65536}, {1 << 20, 32768, 1 << 20}, {40000, 50000, 65536}} {
+		var askedMap, mapped *int64
+		ev := &Evaluator{
+			Load: func(u *ssa.UnOp) (V, bool) {
+				switch n := pathOf(u).Names(); {
+				case strings.HasSuffix(n, "MaxSize"):
+					return iV(0), true
+				case strings.HasSuffix(n, "Mlock"):
+					return bV(false), true
+				case strings.HasSuffix(n, "rwtx"):
+					return nilV, true
+				}
+				return unkV, false
+			},
+			Param: func(p *ssa.Parameter) (V, bool) {
+				if p.Name() == "minsz" {
+					return iV(r.minsz), true
+				}
+				return symV(p.Name()), true
+			},
+			CallN: func(call *ssa.Call, args []V) ([]V, bool) {
+				switch calleeOf(call).Name() {
+				case "bbolt.(*DB).fileSize":
+					return []V{iV(r.file), nilV}, true
+				case "bbolt.(*DB).mmapSize":
+					if g, ok := args[1].Int(); ok {
+						askedMap = &g
+					}
+					return []V{iV(r.mapped), nilV}, true
+				}
+				return nil, false
+			},
+			Call: func(call *ssa.Call, args []V) (V, bool) {
+				if calleeOf(call).Name() == "bbolt.mmap" {
+					if g, ok := args[1].Int(); ok {
+						mapped = &g
+					}
+					return nilV, true
+				}
+				return successCall(call)
+			},
+		}
+		o := ev.Exec(dm, nil)
+		if o.Kind != "return" {
+			return fmt.Sprintf("db.mmap(%d) with a %d-byte file: %s", r.minsz, r.file, o)
+		}
+		want := r.file
+		if r.minsz > want {
+			want = r.minsz
+		}
+		if askedMap == nil || *askedMap < want {
+			return fmt.Sprintf("db.mmap(%d) with a %d-byte file sizes the mapping for %v bytes, want at least %d", r.minsz, r.file, deref(askedMap), want)
+		}
+		if mapped == nil || *mapped != r.mapped {
+			return fmt.Sprintf("db.mmap(%d): the platform mmap receives %v, want the mmapSize result %d", r.minsz, deref(mapped), r.mapped)
+		}
+	}
+	return ""
+}
+
+func deref(p *int64) any {
+	if p == nil {
+		return "<none>"
+	}
+	return *p
+}
+
+func allocateRemapTable(c *Ctx, da *ssa.Function) string {
+	type row struct{ hwm, count, P, datasz int64 }
+	for _, r := range []row{{8, 1, 4096, 32768}, {7, 1, 4096, 32768}, {6, 3, 4096, 32768}, {4, 2, 4096, 32768}, {100, 40, 4096, 1 << 20}, {3, 2, 16384, 65536}} {
+		var lastID V
+		var mm *int64
+		ev := &Evaluator{
+			Load: func(u *ssa.UnOp) (V, bool) {
+				switch n := pathOf(u).Names(); {
+				case strings.HasSuffix(n, "MaxSize"):
+					return iV(0), true
+				case strings.HasSuffix(n, "pageSize"):
+					return iV(r.P), true
+				case strings.HasSuffix(n, "datasz"):
+					return iV(r.datasz), true
+				}
+				return unkV, false
+			},
+			Param: func(p *ssa.Parameter) (V, bool) {
+				if p.Name() == "count" {
+					return iV(r.count), true
+				}
+				return symV(p.Name()), true
+			},
+			Call: func(call *ssa.Call, args []V) (V, bool) {
+				name := calleeOf(call).Name()
+				switch {
+				case strings.HasSuffix(name, ".Allocate"):
+					return uV(0), true
+				case name == "common.(*Meta).Pgid":
+					return uV(uint64(r.hwm)), true
+				case name == "common.(*Page).SetId":
+					lastID = args[1]
+					return unkV, false
+				case name == "common.(*Page).Id":
+					return lastID, true
+				case name == "bbolt.(*DB).mmap":
+					if g, ok := args[1].Int(); ok {
+						mm = &g
+					}
+					return nilV, true
+				}
+				return successCall(call)
+			},
+		}
+		o := ev.Exec(da, nil)
+		if o.Kind != "return" || len(o.Rets) != 2 {
+			return fmt.Sprintf("allocate(count=%d) at high-water mark %d: %s", r.count, r.hwm, o)
+		}
+		end := (r.hwm + r.count) * r.P
+		if end > r.datasz && (mm == nil || *mm < end) {
+			return fmt.Sprintf("a run of %d pages at high-water mark %d ends at byte %d, beyond the %d-byte mapping, but db.mmap is called with %v", r.count, r.hwm, end, r.datasz, deref(mm))
+		}
+	}
+	return ""
 }
